@@ -238,7 +238,27 @@ func genEmit(t *rapid.T) emitCase {
 	fc := gen.FC(t)
 	switch kind {
 	case "request":
-		return emitCase{Kind: kind, Req: gen.LegalReq(t, fc, false)}
+		r := gen.LegalReq(t, fc, false)
+		if rapid.IntRange(0, 5).Draw(t, "over_limit") == 0 {
+			// "every RTU frame the library emits": also what the constructors accept beyond the specification's limits (if anything)
+			over := rapid.IntRange(1, 4).Draw(t, "over_by")
+			switch fc {
+			case 1, 2:
+				r.Qty = uint16(2000 + over)
+			case 3, 4:
+				r.Qty = uint16(125 + over)
+			case 15:
+				r.Qty = uint16(1968 + over)
+				r.Payload, r.ByteCount = gen.Payload(t, "coils_over", (int(r.Qty)+7)/8), uint8((int(r.Qty)+7)/8)
+			case 16:
+				r.Qty = uint16(123 + over)
+				r.Payload, r.ByteCount = gen.Payload(t, "regs_over", 2*int(r.Qty)), uint8(2*int(r.Qty))
+			case 23:
+				r.WQty = uint16(121 + over)
+				r.Payload, r.ByteCount = gen.Payload(t, "regs_over", 2*int(r.WQty)), uint8(2*int(r.WQty))
+			}
+		}
+		return emitCase{Kind: kind, Req: r}
 	case "response":
 		c := emitCase{Kind: kind, Resp: genResp(t, fc)}
 		if rapid.IntRange(0, 3).Draw(t, "inconsistent") == 0 && len(c.Resp.Data) > 0 {
